@@ -28,6 +28,8 @@ def run(ctx):
     E.r_cancel_on_exit(prog, rep)
     E.r_prior_value_guard(prog, rep)
     E.r_value_compare(prog, rep)
+    E.r_deps_reset(prog, rep)
+    E.r_queue_ops(prog, rep)
     from sa.report import run_subset
     from rules import C03
     run_subset(C03, ctx, {"R-DEPBLOB-BITS", "R-DB-LOOKUP-ON-ADD"})     # the stored dependency list is read back as written; stored results are consulted
